@@ -9,6 +9,7 @@ CONSTANTS
   Weak_NoEndHeightRepair = FALSE
   Weak_HandshakeAcceptsAppAhead = FALSE
   Weak_EmptyStoreAcceptsAppAhead = FALSE
+  Weak_NoInitialHeightBase = FALSE
 INIT Init
 NEXT Next
 CHECK_DEADLOCK FALSE
